@@ -210,6 +210,29 @@ Theorem unit_factor_correct :
   unit_factor "km/s" "km/s" = Some 1%Q.
 Proof. exact unit_factor_correct_l. Qed.
 
+(** the pattern substitution in general (any rule table): a pattern  l0 {n1} l1 {n2} l2  expands to
+    l0 v1 l1 v2 l2, and distinct field values of equal length (two-digit component labels, two-letter base
+    names) never give the same name *)
+Theorem pattern_substitution_general :
+  (forall env l0 n1 l1 n2 l2 v1 v2,
+     nobrace l0 = true -> nobrace n1 = true -> nobrace l1 = true -> nobrace n2 = true -> nobrace l2 = true ->
+     dget n1 env = Some v1 -> dget n2 env = Some v2 ->
+     format (l0 ++ String lbrace (n1 ++ String rbrace (l1 ++ String lbrace (n2 ++ String rbrace l2)))) env =
+     Some (l0 ++ v1 ++ l1 ++ v2 ++ l2)) /\
+  (forall l0 l1 l2 v1 v2 w1 w2,
+     String.length v1 = String.length w1 ->
+     l0 ++ v1 ++ l1 ++ v2 ++ l2 = l0 ++ w1 ++ l1 ++ w2 ++ l2 ->
+     String.length v2 = String.length w2 -> v1 = w1 /\ v2 = w2).
+Proof. split; [exact format_two_fields | exact two_field_pattern_injective]. Qed.
+Example pattern_substitution_applies :
+  format ("c" ++ String lbrace ("ij" ++ String rbrace ("s_" ++ String lbrace ("base" ++ String rbrace "_gpa.txt"))))
+         [("base", "tp"); ("ij", format_ij (1, 2)%Z)] = Some "c12s_tp_gpa.txt" /\
+  "c{ij}s_{base}_gpa.txt" = "c" ++ String lbrace ("ij" ++ String rbrace ("s_" ++ String lbrace ("base" ++ String rbrace "_gpa.txt"))).
+Proof.
+  split; [|reflexivity].
+  rewrite (format_two_fields _ "c" "ij" "s_" "base" "_gpa.txt" "12" "tp"); reflexivity.
+Qed.
+
 (** fname / unit / unit_internal given by the user replace the rule's, for every rule, base and key set *)
 Theorem override_honoured :
   forall r base keys f u ui,
@@ -246,5 +269,6 @@ Print Assumptions every_keyword_writes.
 Print Assumptions labels_are_requested_grid.
 Print Assumptions rows_are_first_nt.
 Print Assumptions unit_factor_correct.
+Print Assumptions pattern_substitution_general.
 Print Assumptions override_honoured.
 Print Assumptions override_ij_one_file_per_component_refuted.
